@@ -1,5 +1,6 @@
 import PydapModel.Sexp
 import PydapModel.Path
+import PydapModel.PathServer
 /-
   Line-protocol driver for the C16 model (PydapModel/Path.lean).
   Strings travel as `x<hex>` atoms (ASCII); a path is a list of such atoms.
@@ -59,6 +60,17 @@ def handlePath : List Sexp → Option String
     let fs ← fs.mapM asFsEntry?
     let tr := (serve exts (mkFs fs) root pi).1
     pure (toString (list (tr.map fun a => list [atom (opName a.op), segsOf a.path])))
+  | [atom "path-history", exts, root, list evs] => do
+    -- one server object, a history of (path_info, file system) events
+    let exts ← asSegs? exts
+    let root ← asSegs? root
+    let evs ← evs.mapM fun e => match e with
+      | list [pi, list fs] => do
+        let pi ← asChars? pi
+        let fs ← fs.mapM asFsEntry?
+        pure ((mkFs fs, pi) : Event)
+      | _ => none
+    pure (toString (list ((runHistory ⟨root, exts⟩ evs).map fun r => outcomeOf r.2)))
   | [atom "path-resolve", root, pi] => do
     let root ← asSegs? root
     let pi ← asChars? pi
